@@ -255,6 +255,8 @@ pub struct Ctx {
     pub strict: bool,
     pub replays_seen: AtomicU64,
     pub replayed_kinds: Mutex<HashSet<String>>,
+    /// extra context stored in replay files (C20: the build configuration)
+    pub extra: Mutex<Option<serde_json::Value>>,
     pub start: Instant,
 }
 
@@ -321,6 +323,7 @@ impl Ctx {
             strict: false,
             replays_seen: AtomicU64::new(0),
             replayed_kinds: Mutex::new(HashSet::new()),
+            extra: Mutex::new(None),
             start: Instant::now(),
         }
     }
@@ -398,6 +401,7 @@ impl Ctx {
             "flavour": self.flavour,
             "sig": f.sig,
             "detail": f.detail,
+            "config": self.extra.lock().unwrap().clone(),
             "case": case,
         });
         let text = serde_json::to_string_pretty(&body).unwrap();
